@@ -1,8 +1,8 @@
 #!/bin/sh
-# usage: confirm_seed.sh <Cxx> <worktree> <seed dir> <demo test name (cargo --test NAME)>
+# usage: confirm_seed.sh <Cxx> <worktree> <seed dir> <demo test name (cargo --test NAME)> [extra cargo flags for the demo, e.g. "--features async"]
 # confirms: patch applies on a clean tree, crate builds, lib tests pass (82), demo fails with the patch and passes without it
 set -u
-ID="$1"; WT="$2"; SD="$3"; DEMO="$4"
+ID="$1"; WT="$2"; SD="$3"; DEMO="$4"; EXTRA="${5:-}"
 OUT="$SD/confirm.txt"
 cd "$WT" || exit 2
 export CARGO_NET_OFFLINE=true
@@ -11,8 +11,8 @@ echo "== confirm $ID $(date)"
 git stash -q 2>/dev/null; git checkout -q -- . 2>/dev/null
 git apply "$SD/patch.diff" && echo "patch applies"
 echo "-- lib tests with patch"; cargo test --offline --lib 2>&1 | grep -E '^test result' 
-echo "-- demo with patch (expected to FAIL)"; cargo test --offline --test "$DEMO" 2>&1 | grep -E '^test result|panicked|FAILED' | head -8
+echo "-- demo with patch (expected to FAIL)"; cargo test --offline $EXTRA --test "$DEMO" 2>&1 | grep -E '^test result|panicked|FAILED' | head -14
 git apply -R "$SD/patch.diff" && echo "patch reverted"
-echo "-- demo without patch (expected to PASS)"; cargo test --offline --test "$DEMO" 2>&1 | grep -E '^test result|panicked|FAILED' | head -8
+echo "-- demo without patch (expected to PASS)"; cargo test --offline $EXTRA --test "$DEMO" 2>&1 | grep -E '^test result|panicked|FAILED' | head -14
 git apply "$SD/patch.diff"
 } > "$OUT" 2>&1
